@@ -592,6 +592,10 @@ Definition valid_field_name (s : text) : bool :=
   | [] => false
   end.
 
+(* the same pattern ending in `$` instead of `\Z`: `$` also matches before ONE trailing line feed *)
+Definition valid_field_name_dollar (s : text) : bool :=
+  valid_field_name s || match rev s with 10 :: r => valid_field_name (rev r) | _ => false end.
+
 (* dict(zip(fields, row)) then init_from_dict: per descriptor field the LAST cell zipped with that name,
    None when there is none *)
 Fixpoint zip_lookup (k : text) (names : list text) (cells : row) (acc : option text) : option text :=
